@@ -95,11 +95,19 @@ fn ur_list(c: &Cfg) -> Vec<i128> {
 }
 
 fn check_cfg(c: &Cfg, st: &Mutex<Stats>) {
+    check_cfg_as(c, st, None)
+}
+
+/// `stored_by`: the curve was read back from a bank after the named instruction accepted it
+fn check_cfg_as(c: &Cfg, st: &Mutex<Stats>, stored_by: Option<&str>) {
     let fee_menu: [(f64, f64); 3] = [(0.0, 0.0), (0.01, 0.1), (2.0, 3.0)];
-    let shape = format!("{}pts", c.points.iter().filter(|p| p.util != 0).count());
+    let shape = match stored_by {
+        Some(path) => format!("stored_by:{path}"),
+        None => format!("{}pts", c.points.iter().filter(|p| p.util != 0).count()),
+    };
     let ir0 = mk_config(c, &fee_menu[0]);
     let verdict = std::panic::catch_unwind(|| ir0.validate());
-    let accepted = matches!(verdict, Ok(Ok(())));
+    let accepted = stored_by.is_some() || matches!(verdict, Ok(Ok(())));
     let mut local_found: Vec<Found> = vec![];
     let mut evals = 0u64;
     let mut classes: Vec<String> = vec![];
@@ -306,6 +314,92 @@ fn legacy_sweep(st: &Mutex<Stats>) {
     }
 }
 
+/// (3) every instruction that can write a curve, with valid and invalid curves: whatever it stores
+/// must be a curve with all the properties above, and accrual must run on it at every utilisation
+fn write_paths(st: &Mutex<Stats>) {
+    use crate::act::{self, Action};
+    use crate::ix;
+    use crate::svm::{process_tx, Tx};
+    use crate::world::{self, *};
+    use marginfi_type_crate::types::{BankConfigOpt, InterestRateConfigOpt};
+    let spec = |label: &str, mint: &str| BankSpec { label: label.into(), mint: MintSpec::spl(mint, 6), oracle: OracleSpec::pyth_usd(100_000_000), config: BankCfg::default() };
+    let (w, mut s0) = build_world(&WorldSpec::new("C18w", vec![spec("W0", "c18w0"), spec("W1", "c18w1")], &["u0", "u1", "seeder"]));
+    for a in [Action::Deposit { u: 2, b: 0, amt: 1_000_000_000, up_to_limit: None }, Action::Deposit { u: 2, b: 1, amt: 1_000_000_000, up_to_limit: None }, Action::Deposit { u: 0, b: 1, amt: 900_000_000, up_to_limit: None }, Action::Borrow { u: 0, b: 0, amt: 100_000_000 }] {
+        assert!(act::apply(&w, &mut s0, &a).committed, "{:?}", a);
+    }
+    let spare_mint = create_mint(&mut s0, &w.payer, &w.mint_auth, &MintSpec::spl("c18spare", 6));
+    let p = |u: f64, r: f64| RatePoint::new(util_u32(u), rate_u32(r));
+    let z = RatePoint::default();
+    // (zero rate, hundred rate, points)
+    let curves: Vec<(&str, f64, f64, [RatePoint; 5])> = vec![
+        ("default_like", 0.01, 3.0, [p(0.5, 0.1), p(0.9, 0.5), z, z, z]),
+        ("plateau", 0.01, 1.5, [p(0.45, 0.06), p(0.8, 0.06), p(0.9, 0.2), z, z]),
+        ("flat_everywhere", 0.2, 0.2, [p(0.5, 0.2), z, z, z, z]),
+        ("five_points", 0.0, 9.0, [p(0.1, 0.1), p(0.2, 0.2), p(0.5, 0.5), p(0.8, 2.0), p(0.95, 5.0)]),
+        ("decreasing_segment", 0.01, 1.5, [p(0.4, 0.2), p(0.6, 0.05), p(0.8, 0.5), z, z]),
+        ("point_above_hundred", 0.01, 0.4, [p(0.5, 0.1), p(0.85, 0.6), z, z, z]),
+        ("point_below_zero_rate", 0.3, 1.0, [p(0.5, 0.1), z, z, z, z]),
+        ("utilisation_not_increasing", 0.0, 1.0, [p(0.6, 0.1), p(0.4, 0.2), z, z, z]),
+        ("duplicate_utilisation", 0.0, 1.0, [p(0.5, 0.1), p(0.5, 0.2), z, z, z]),
+        ("gap_in_points", 0.0, 1.0, [p(0.3, 0.1), z, p(0.6, 0.2), z, z]),
+        ("hundred_below_zero_rate", 0.5, 0.1, [z, z, z, z, z]),
+    ];
+    let g = w.group;
+    for (cname, zero, hundred, points) in &curves {
+        let opt = InterestRateConfigOpt { zero_util_rate: Some(rate_u32(*zero)), hundred_util_rate: Some(rate_u32(*hundred)), points: Some(*points), ..Default::default() };
+        // partial requests too: the points alone, the end rates alone (against the stored rest)
+        let only_points = InterestRateConfigOpt { points: Some(*points), ..Default::default() };
+        let only_ends = InterestRateConfigOpt { zero_util_rate: Some(rate_u32(*zero)), hundred_util_rate: Some(rate_u32(*hundred)), ..Default::default() };
+        let mut new_cfg = BankCfg::default();
+        new_cfg.ir.zero_util_rate = rate_u32(*zero);
+        new_cfg.ir.hundred_util_rate = rate_u32(*hundred);
+        new_cfg.ir.points = *points;
+        let (new_bank, add_ix) = ix::add_bank_with_seed(g, w.roles.admin, w.payer, w.fee_wallet, spare_mint, spl_token::id(), new_cfg.compact(), 5);
+        let paths: Vec<(&str, Tx, solana_program::pubkey::Pubkey)> = vec![
+            ("configure_bank_interest_only", Tx::one(ix::configure_bank_interest_only(g, w.roles.curve, w.banks[0].key, opt.clone()), &[w.roles.curve]), w.banks[0].key),
+            ("configure_bank_interest_only(points)", Tx::one(ix::configure_bank_interest_only(g, w.roles.curve, w.banks[0].key, only_points.clone()), &[w.roles.curve]), w.banks[0].key),
+            ("configure_bank_interest_only(end rates)", Tx::one(ix::configure_bank_interest_only(g, w.roles.curve, w.banks[0].key, only_ends.clone()), &[w.roles.curve]), w.banks[0].key),
+            ("configure_bank", Tx::one(ix::configure_bank(g, w.roles.admin, w.banks[0].key, BankConfigOpt { interest_rate_config: Some(opt.clone()), ..Default::default() }), &[w.roles.admin]), w.banks[0].key),
+            ("configure_bank(points)", Tx::one(ix::configure_bank(g, w.roles.admin, w.banks[0].key, BankConfigOpt { interest_rate_config: Some(only_points.clone()), ..Default::default() }), &[w.roles.admin]), w.banks[0].key),
+            ("add_bank_with_seed", Tx::one(add_ix, &[w.roles.admin, w.payer]), new_bank),
+        ];
+        for (pname, tx, bank_key) in paths {
+            let mut s = s0.clone();
+            let r = process_tx(&mut s, &tx);
+            {
+                let mut gst = st.lock().unwrap();
+                gst.configs += 1;
+                gst.evaluations += 1;
+                *gst.classes.entry(format!("write_path:{}:{}", pname.split('(').next().unwrap(), if r.ok() { "accepted" } else { "refused" })).or_insert(0) += 1;
+            }
+            if !r.ok() {
+                continue;
+            }
+            let stored = world::bank(&s, &bank_key).config.interest_rate_config;
+            let c = Cfg { zero: stored.zero_util_rate, hundred: stored.hundred_util_rate, points: stored.points };
+            check_cfg_as(&c, st, Some(&format!("{pname}:{cname}")));
+            // accrual on the stored curve at utilisations on every segment
+            if bank_key == w.banks[0].key {
+                for util_pct in [0u64, 10, 30, 50, 70, 85, 95, 100] {
+                    let mut t = s.clone();
+                    world::edit_bank(&mut t, &bank_key, |b| {
+                        let assets = I80F48::from(b.total_asset_shares) * I80F48::from(b.asset_share_value);
+                        let want = assets * I80F48::from_num(util_pct) / I80F48::from_num(100);
+                        b.total_liability_shares = (want / I80F48::from(b.liability_share_value)).into();
+                    });
+                    t.advance(86_400);
+                    let ra = act::apply(&w, &mut t, &Action::Accrue { b: 0 });
+                    let mut gst = st.lock().unwrap();
+                    gst.evaluations += 1;
+                    if !ra.committed {
+                        gst.found.push(Found { clause: "C18.accrual_never_fails".into(), sig: format!("stored_by:{pname}"), detail: format!("after {pname} accepted curve `{cname}`, interest accrual at {util_pct} % utilisation fails with {}", crate::svm::err_name(ra.code)), replay: json!({"model": "C18w", "path": pname, "curve": cname, "util_pct": util_pct}) });
+                    }
+                }
+            }
+        }
+    }
+}
+
 pub fn run(tier: Tier) -> Outcome {
     let st = Mutex::new(Stats::default());
     let pool = rayon::ThreadPoolBuilder::new().num_threads(16).stack_size(32 << 20).build().unwrap();
@@ -322,6 +416,7 @@ pub fn run(tier: Tier) -> Outcome {
     let n_shaped = shaped.len();
     pool.install(|| shaped.par_iter().for_each(|c| check_cfg(c, &st)));
     legacy_sweep(&st);
+    write_paths(&st);
     let s = st.into_inner().unwrap();
     let mut o = Outcome { level: "exploration".into(), ..Default::default() };
     o.found = s.found;
